@@ -40,7 +40,7 @@ example :
       ¬ ∃ t ∈ inserted ops, matchesV t (fun j => if j = 0 then 2 else 0) := by
   intro ops
   refine ⟨⟨_, rfl, rfl⟩, ?_⟩
-  simp [ops, inserted, matchesV]
+  unfold matchesV; decide
 
 /-- Insertions and fusion passes never raise, whatever was inserted or fused before.
     (The proof does not use `hwf`: `Mwp.DG.run_total` shows it for arbitrary tuples.) -/
